@@ -387,6 +387,7 @@ var vc06QueryPool = []string{
 	"GroupBy(Rows(f), limit=2)", "Options(Row(f=1), columnAttrs=true, shards=[0])", "Row(f=1, from='2010-01-01T00:00', to='2011-01-01T00:00')",
 	"Store(Row(f=1), f=7)", "ClearRow(f=7)", "Row(nofield=1)", "Shift(Row(f=1), n=1)", "Sum(field=\"f\")", "Min(field=f)", "Row(f > 1)", "Row(1 < f < 5)", "Row(f != null)",
 	"TopN(f, ids=[\"a\"])", "TopN(f, ids=1)", "Options(Row(f=1), shards=[\"x\"])", "GroupBy(Rows(f), previous=[1,2])", "Rows(f, previous=\"x\")", "Count()", "Union()", "Not()", "Store(Row(f=1), f=\"k\")",
+	"Row(9223372036854775807 < f < 3)", "Row(-5 <= f < -9223372036854775808)", "Row(99999999999999999999 <= f <= 1)", "Row(f=\"\\q\")", "Row(f=1, f=2)",
 	"MinRow(field=f)", "MaxRow(field=\"f\")", "Range(f=1, 2010-01-01T00:00, 2011-01-01T00:00)", "Set(1, f=1, 2017-13-45T99:99)", "TopN(f, Row(f=1), n=1, tanimotoThreshold=200)", "Intersect(Row(f=1))",
 }
 
